@@ -1,6 +1,7 @@
 #!/bin/sh
 # usage: tools/try_mutant.sh <patch.diff> <PROP>...   applies the patch to /repo, runs the checks, reverts
 P=$1; shift
+case "$P" in /*) ;; *) P="$PWD/$P";; esac
 git -C /repo apply "$P" || exit 9
 for c in "$@"; do
   ./check $c > /tmp/mut_out_$c.txt 2>&1; rc=$?
